@@ -52,9 +52,10 @@ class TLCRun:
                  sim_depth=8, seed=0, workers=1, extra_modules=(), timeout=None):
         self.name = name
         self.dir = tempfile.mkdtemp(prefix="verif.%d." % os.getpid(), dir=SCRATCH_ROOT)
-        for f in os.listdir(SPEC_DIR):
+        spec_dir = os.environ.get("VERIF_SPEC_SNAPSHOT") or SPEC_DIR
+        for f in os.listdir(spec_dir):
             if f.endswith(".tla"):
-                shutil.copy(os.path.join(SPEC_DIR, f), self.dir)
+                shutil.copy(os.path.join(spec_dir, f), self.dir)
         mc = "MC_" + re.sub(r"[^A-Za-z0-9_]", "_", name)
         self.mc = mc
         with open(os.path.join(self.dir, mc + ".tla"), "w") as f:
